@@ -76,11 +76,13 @@ pub struct Case {
     entry_errno: i32,
     /// recvmsg/sendmsg only: the message header carries an ancillary-data buffer
     ctl: bool,
+    /// recv/recvfrom/recvmsg only: the caller passes MSG_WAITALL
+    waitall: bool,
 }
 
 impl Case {
     fn to_json(&self) -> Value {
-        json!({"call": self.call, "shape": self.shape, "nonblocking": self.nonblocking, "timeout_15ms": self.timeout, "script": self.script.iter().map(|a| a.to_s()).collect::<Vec<_>>(), "entry_errno": self.entry_errno, "ancillary_buffer": self.ctl})
+        json!({"call": self.call, "shape": self.shape, "nonblocking": self.nonblocking, "timeout_15ms": self.timeout, "script": self.script.iter().map(|a| a.to_s()).collect::<Vec<_>>(), "entry_errno": self.entry_errno, "ancillary_buffer": self.ctl, "msg_waitall": self.waitall})
     }
     fn from_json(v: &Value) -> Option<Case> {
         Some(Case {
@@ -91,6 +93,7 @@ impl Case {
             script: v.get("script")?.as_array()?.iter().map(|a| a.as_str().and_then(Ans::from_s)).collect::<Option<Vec<_>>>()?,
             entry_errno: v.get("entry_errno").and_then(Value::as_i64).unwrap_or(0) as i32,
             ctl: v.get("ancillary_buffer").and_then(Value::as_bool).unwrap_or(false),
+            waitall: v.get("msg_waitall").and_then(Value::as_bool).unwrap_or(false),
         })
     }
 }
@@ -363,11 +366,12 @@ pub fn run_case(c: &Case, socks: &Socks) -> (Vec<Viol>, Vec<String>) {
     let iov: Vec<libc::iovec> = bufs.iter().map(|(a, l)| libc::iovec { iov_base: *a as *mut c_void, iov_len: *l }).collect();
     let mut ctl_buf = [0u64; 4];
     let (ctl_ptr, ctl_len) = if c.ctl { (ctl_buf.as_mut_ptr().cast::<c_void>(), 24usize) } else { (std::ptr::null_mut(), 0) };
+    let rflags = if c.waitall { libc::MSG_WAITALL } else { 0 };
     sc::set_errno(c.entry_errno);
     let ret: isize = match c.call {
         "read" => { let f: extern "C" fn(c_int, *mut c_void, usize) -> isize = k_read; sc::read(Some(&f), fd, bufs[0].0 as *mut c_void, bufs[0].1) }
-        "recv" => { let f: extern "C" fn(c_int, *mut c_void, usize, c_int) -> isize = k_recv; sc::recv(Some(&f), fd, bufs[0].0 as *mut c_void, bufs[0].1, 0) }
-        "recvfrom" => { let f: extern "C" fn(c_int, *mut c_void, usize, c_int, *mut libc::sockaddr, *mut libc::socklen_t) -> isize = k_recvfrom; sc::recvfrom(Some(&f), fd, bufs[0].0 as *mut c_void, bufs[0].1, 0, std::ptr::null_mut(), std::ptr::null_mut()) }
+        "recv" => { let f: extern "C" fn(c_int, *mut c_void, usize, c_int) -> isize = k_recv; sc::recv(Some(&f), fd, bufs[0].0 as *mut c_void, bufs[0].1, rflags) }
+        "recvfrom" => { let f: extern "C" fn(c_int, *mut c_void, usize, c_int, *mut libc::sockaddr, *mut libc::socklen_t) -> isize = k_recvfrom; sc::recvfrom(Some(&f), fd, bufs[0].0 as *mut c_void, bufs[0].1, rflags, std::ptr::null_mut(), std::ptr::null_mut()) }
         "write" => { let f: extern "C" fn(c_int, *const c_void, usize) -> isize = k_write; sc::write(Some(&f), fd, bufs[0].0 as *const c_void, bufs[0].1) }
         "send" => { let f: extern "C" fn(c_int, *const c_void, usize, c_int) -> isize = k_send; sc::send(Some(&f), fd, bufs[0].0 as *const c_void, bufs[0].1, 0) }
         "sendto" => { let f: extern "C" fn(c_int, *const c_void, usize, c_int, *const libc::sockaddr, libc::socklen_t) -> isize = k_sendto; sc::sendto(Some(&f), fd, bufs[0].0 as *const c_void, bufs[0].1, 0, std::ptr::null(), 0) }
@@ -380,7 +384,7 @@ pub fn run_case(c: &Case, socks: &Socks) -> (Vec<Viol>, Vec<String>) {
             m.msg_iovlen = iov.len();
             m.msg_control = ctl_ptr;
             m.msg_controllen = ctl_len;
-            sc::recvmsg(Some(&f), fd, &mut m, 0)
+            sc::recvmsg(Some(&f), fd, &mut m, rflags)
         }
         "sendmsg" => {
             let f: extern "C" fn(c_int, *const libc::msghdr, c_int) -> isize = k_sendmsg;
@@ -576,7 +580,11 @@ pub fn cases(tier: &str) -> Vec<Case> {
                                 if ctl && (!msg || script.len() > 2 || entry_errno != 0) {
                                     continue;
                                 }
-                                v.push(Case { call, shape: shape.clone(), nonblocking, timeout, script: script.clone(), entry_errno, ctl });
+                                v.push(Case { call, shape: shape.clone(), nonblocking, timeout, script: script.clone(), entry_errno, ctl, waitall: false });
+                            }
+                            // the receive family with MSG_WAITALL (a caller that wants the buffers filled)
+                            if matches!(call, "recv" | "recvfrom" | "recvmsg") && script.len() <= 3 && entry_errno == 0 && !timeout {
+                                v.push(Case { call, shape: shape.clone(), nonblocking, timeout, script: script.clone(), entry_errno, ctl: false, waitall: true });
                             }
                         }
                     }
@@ -627,6 +635,7 @@ pub fn run(scen: &str, tier: &str, rep: &mut Report) {
         "script_depth": format!("{} over the full alphabet, {} over {{All, Part(min), Part(max), EAGAIN+ready, EINTR, ECONNRESET}}; answers after the script are All", depths(tier).0, depths(tier).1),
         "errno_on_entry": "0, EAGAIN, EINTR (scripts of <= 3 answers); the scripted kernel leaves errno alone on success",
         "ancillary_buffer": "recvmsg/sendmsg with and without a 24-byte msg_control (scripts of <= 2 answers)",
+        "msg_waitall": "recv/recvfrom/recvmsg also with MSG_WAITALL (scripts of <= 3 answers)",
         "modes": ["blocking", "non-blocking"], "socket_timeouts": ["unset", "15 ms"], "cases": all.len()});
     rep.require(&["cases_with_retries", "wait_seam_consulted", "partial_transfers"]);
     for c in all.iter().step_by((all.len() / 4).max(1)).take(4) {
